@@ -186,7 +186,10 @@ impl Property for C11 {
     }
 
     fn run(&self, case: &Case, cx: &mut Cx) -> Result<(), String> {
-        let w = build_its_world(CHAIN_NAMES[0], HUB_ADDR, 5);
+        let mut w = build_its_world(CHAIN_NAMES[0], HUB_ADDR, 5);
+        // the third deployer is the account-kind address carrying the same 32 bytes as the first (contract-kind) one:
+        // ids are functions of the whole address
+        w.users[2] = kind_twin(&w.env, &w.users[0]);
         let env = &w.env;
         let its2 = deploy_its(env, &w.gw.id, &w.gas.id, HUB_ADDR, CHAIN_NAMES[1]);
         let mut svcs = vec![
